@@ -163,4 +163,179 @@ Qed.
 
 End Ref.
 
+(* ---------- deques are filled in enter order ---------- *)
+
+Definition GoodA s : Prop := (forall x, srt (epos s) (dids (dq s x))) /\ (forall x, mf (dq s x)).
+
+Lemma gooda_noenter s s' : NEn s s' -> (forall x, dq s' x = dq s x \/ dq s' x = []) -> GoodA s -> GoodA s'.
+Proof.
+  intros N Hq [S M]. split; intro x.
+  - destruct (Hq x) as [E|E]; rewrite E; [|constructor].
+    eapply srt_ext; [|apply S]. intros y _. now apply nen_epos.
+  - destruct (Hq x) as [E|E]; rewrite E; [apply M|intros []].
+Qed.
+
+Lemma gooda_same s s' : trace s' = trace s -> (forall x, dq s' x = dq s x) -> GoodA s -> GoodA s'.
+Proof.
+  intros Ht Hq G. apply (gooda_noenter s); [exists []; split; [exact Ht|constructor]|intro x; left; apply Hq|exact G].
+Qed.
+Lemma gooda_gen s i g : GoodA s -> GoodA (set_gen s i g). Proof. now apply gooda_same. Qed.
+Lemma gooda_done s i d : GoodA s -> GoodA (set_done s i d). Proof. now apply gooda_same. Qed.
+Lemma gooda_oof s : GoodA s -> GoodA (out_of_fuel s). Proof. now apply gooda_same. Qed.
+Lemma gooda_emit s k i : k <> Enter -> GoodA s -> GoodA (emit s k i).
+Proof.
+  intros Hk G. apply (gooda_noenter s); [|intro x; now left|exact G]. apply nen_emit; [exact Hk|apply nen_refl].
+Qed.
+
+Lemma gooda_close f s :
+  (forall i, GoodA s -> GoodA (gen_close tk f s i)) /\
+  (forall sid, GoodA s -> GoodA (close_own tk f s sid)) /\
+  (forall ds, GoodA s -> GoodA (close_list tk f s ds)).
+Proof.
+  destruct (noenter_all tk f) as (_ & _ & Ncl & Nco & Nli & _).
+  destruct (shrink_all tk f) as (Scl & Sco & Sli).
+  split; [|split].
+  - intros i G. apply (gooda_noenter s); [apply Ncl, nen_refl|apply (Scl s s i (sh_refl s))|exact G].
+  - intros sid G. apply (gooda_noenter s); [apply Nco, nen_refl|apply (Sco s s sid (sh_refl s))|exact G].
+  - intros ds G. apply (gooda_noenter s); [apply Nli, nen_refl|apply (Sli s s ds (sh_refl s))|exact G].
+Qed.
+
+Lemma gooda_enter s i : (forall x, ~ In i (qids s x)) -> GoodA s -> GoodA (emit (set_gen s i (GRun 0)) Enter i).
+Proof.
+  intros Ni [S M]. split; [|exact M]. intro x.
+  change (dq (emit (set_gen s i (GRun 0)) Enter i) x) with (dq s x).
+  eapply srt_ext; [|apply S]. intros y Hy. unfold epos. cbn [trace emit set_gen epos_tr].
+  unfold is_enter_of. cbn [e_kind e_id].
+  destruct (N.eqb i y) eqn:E; [|reflexivity]. apply N.eqb_eq in E. subst y. exfalso. exact (Ni x Hy).
+Qed.
+
+Lemma gooda_append s sid i re :
+  (forall y, In y (qids s sid) -> (epos s y < epos s i)%nat) -> GoodA s ->
+  GoodA (set_deeds s sid (dq s sid ++ [DDeed i re])).
+Proof.
+  intros C [S M]. split; intro x.
+  - destruct (N.eq_dec x sid) as [Heq|Hne].
+    + subst x. rewrite dq_deeds_same, dids_app. cbn [dids flat_map app]. apply srt_snoc; [apply S|exact C].
+    + rewrite dq_deeds_other by exact Hne. apply S.
+  - destruct (N.eq_dec x sid) as [Heq|Hne].
+    + subst x. rewrite dq_deeds_same. apply mf_app. split; [apply M|intros [Hx|[]]; discriminate].
+    + rewrite dq_deeds_other by exact Hne. apply M.
+Qed.
+
+Lemma run_step0_good f s i k sc s' r :
+  WX (defs s) -> get (defs s) i = Some (FLeaf k sc) -> GoodA s -> run_step tk f s i k sc 0 = (s', r) -> GoodA s'.
+Proof.
+  intros Wx D G E. destruct f as [|f]; [cbn in E; fin; now apply gooda_oof|].
+  rewrite run_step_S in E. cbv zeta in E. rewrite (step0_empty _ i k sc Wx D) in E.
+  destruct f as [|f']; [cbn in E; fin; now apply gooda_oof|].
+  rewrite run_effects_S in E. cbv beta iota zeta in E.
+  destruct (f_out _); fin;
+    repeat first [exact G | apply gooda_gen | apply gooda_done | (apply gooda_emit; [discriminate|])].
+Qed.
+
+Lemma gen_start_yield_defs f s i s' t : gen_start tk f s i = (s', GYield t) -> get (defs s) i <> None.
+Proof.
+  destruct f as [|f]; [cbn; discriminate|]. rewrite gen_start_S.
+  destruct (startable s i); cbn [negb]; [|discriminate].
+  destruct (get (defs s) i); [discriminate|discriminate].
+Qed.
+
+Lemma wx_defs s s' : defs s' = defs s -> WX (defs s) -> WX (defs s').
+Proof. intros E X. now rewrite E. Qed.
+
+Definition sorta_at (f : nat) : Prop :=
+  (forall s X i s' r, WX (defs s) -> Hold s X -> Hold2 s X -> GoodA s ->
+       gen_start tk f s i = (s', r) -> oof s' = false -> GoodA s') /\
+  (forall s X sid ids s' r, WX (defs s) -> Hold s X -> Hold2 s X -> own s sid -> GoodA s ->
+       enter_own tk f s sid ids = (s', r) -> oof s' = false -> GoodA s').
+
+Lemma sorta_all : forall f, sorta_at f.
+Proof.
+  induction f as [|f IH].
+  - split; intros; match goal with E : _ = (_, _) |- _ => cbn in E; inversion E; subst; clear E end;
+      match goal with O : oof _ = false |- _ => cbn in O; discriminate end.
+  - destruct IH as (Ist & Ieo).
+    destruct (ob_all tk f) as (Brs & Bsd & Bcl & Bco & Bli & Bef & Brp & Brl).
+    split.
+    + (* gen_start *)
+      intros s X i s' r Wx Hh Hh2 G E O. rewrite gen_start_S in E.
+      destruct (startable s i) eqn:St; cbn [negb] in E; [|fin; exact G].
+      assert (Ni : forall x, ~ In i (qids s x)).
+      { intros x Hin. destruct (h2_susp _ _ _ Hh2 i) as [pc S]; [right; now exists x|].
+        unfold startable in St. rewrite S in St. discriminate. }
+      destruct (get (defs s) i) as [[k sc|t0 al kids]|] eqn:D; [| |fin; exact G].
+      * eapply run_step0_good; [| | |exact E]; [exact Wx|exact D|now apply gooda_enter].
+      * cbv zeta in E.
+        set (s1 := emit (set_gen s i (GRun 0)) Enter i) in *.
+        assert (G1 : GoodA s1) by now apply gooda_enter.
+        assert (H1 : Hold s1 X) by (apply hold_emit, g_start; [exact Hh|rewrite D; discriminate]).
+        assert (H21 : Hold2 s1 X) by (apply hold2_emit, g2_start; assumption).
+        assert (W1 : own s1 i).
+        { right. split; [exists 0%nat; apply gen_set_gen_same|]. unfold isnest. change (defs s1) with (defs s). now rewrite D. }
+        destruct (enter_own tk f s1 i _) as [s2 r0] eqn:Ee.
+        assert (O2 : oof s2 = false).
+        { destruct r0; fin; try exact O. apply Bco in O. destruct kbd; exact O. }
+        assert (G2 : GoodA s2) by (eapply Ieo; [| | | | |exact Ee|exact O2]; eassumption).
+        destruct (gooda_close f (if match r0 with GRaise k => k | _ => true end then s2 else emit s2 Abort i)) as (_ & Gco & _).
+        destruct r0; fin; try exact G2; try (apply gooda_gen; exact G2).
+        apply gooda_gen. apply gooda_emit; [discriminate|]. apply Gco.
+        destruct kbd; [exact G2|apply gooda_emit; [discriminate|exact G2]].
+    + (* enter_own *)
+      intros s X sid ids s' r Wx Hh Hh2 Wo G E O. rewrite enter_own_S in E.
+      destruct ids as [|i rest]; [fin; exact G|]. cbv zeta in E.
+      set (s0 := set_done s i (Some false)) in *.
+      destruct (gen_start tk f s0 i) as [s1 r0] eqn:Eg.
+      assert (O1 : oof s1 = false).
+      { destruct (frame_all tk f) as (_ & _ & _ & _ & _ & _ & Feo & _).
+        destruct r0; fin; try exact O;
+          exact (oof_back_steps _ _ (Feo _ _ _ _ _ _ (st_refl _) E) O). }
+      assert (G1 : GoodA s1).
+      { eapply (Ist s0 X); [| | | |exact Eg|exact O1]; [exact Wx|exact Hh|exact Hh2|].
+        apply gooda_done. exact G. }
+      assert (Dd : defs s1 = defs s0) by (destruct (defs_all tk f) as (K & _); eapply K; exact Eg).
+      assert (W1x : WX (defs s1)) by (eapply wx_defs; [exact Dd|exact Wx]).
+      assert (H1 : Hold s1 (eout r0 i X)).
+      { destruct (hold_all tk f) as (K & _). destruct (K s0 X i s1 r0 (or_intror Hh) Eg) as [Ob|Hx]; [congruence|exact Hx]. }
+      assert (H21 : Hold2 s1 (eout r0 i X)).
+      { destruct (hold2_all tk f) as (K & _). destruct (K s0 X i s1 r0 (or_intror Hh2) Eg) as [Ob|Hx]; [congruence|exact Hx]. }
+      assert (Wo1 : own s1 sid).
+      { apply (own_keep s0); [exact Wo|exact Dd|]. intro R. destruct (keep_all tk f sid) as (K & _). eapply K; eassumption. }
+      destruct r0; fin.
+      * (* the doer yielded: its deed goes to the end of the deque *)
+        cbn [eout] in H1, H21.
+        assert (St : startable s0 i = true) by (eapply gen_start_yield; exact Eg).
+        assert (Di : get (defs s0) i <> None) by (eapply gen_start_yield_defs; exact Eg).
+        assert (Fx : FX s0 s1).
+        { destruct (famx_all s0 Wx f) as (K & _). eapply K; [|exact Eg].
+          apply fx_refl. exact (hold_La s0 X Hh). }
+        assert (Qs : dq s1 sid = dq s0 sid).
+        { apply (fx_dq _ _ Fx). destruct Wo as [Hz|[[pc R] _]]; [now right|left]. unfold startable.
+          change (get_gen s0 sid) with (get_gen s sid). now rewrite R. }
+        destruct (en_all tk f) as (En & _).
+        destruct (En s0 s0 i s1 _ (en_refl s0) Eg) as [_ Ent].
+        destruct (Ent ltac:(discriminate) St Di) as (seg & e & Tr & Hin & Hk & Hi).
+        destruct (fx_ent _ _ Fx) as (seg' & Tr' & Fe).
+        assert (seg' = seg) by (rewrite Tr in Tr'; now apply app_inv_tail in Tr'). subst seg'.
+        assert (Ei : (epos s1 i > length (trace s0))%nat).
+        { unfold epos. rewrite Tr. apply epos_app_enter. exists e. split; [exact Hin|].
+          unfold is_enter_of. rewrite Hk, Hi. apply N.eqb_refl. }
+        eapply (Ieo _ X); [| | | | |exact E|exact O].
+        -- exact W1x.
+        -- apply (hold_append s1 sid [DDeed i (tyme s1)] X); [exact Wo1|exact H1].
+        -- apply (hold2_append s1 sid [DDeed i (tyme s1)] X). exact H21.
+        -- exact Wo1.
+        -- apply gooda_append; [|exact G1]. intros y Hy. unfold qids in Hy. rewrite Qs in Hy.
+           assert (Sy : startable s0 y = false).
+           { destruct (h2_susp _ _ _ Hh2 y) as [pc S]; [right; now exists sid|].
+             unfold startable. change (get_gen s0 y) with (get_gen s y). now rewrite S. }
+           assert (Ey : epos s1 y = epos s0 y).
+           { unfold epos. rewrite Tr. apply epos_app_noenter. intros x Hx. unfold is_enter_of.
+             destruct (e_kind x) eqn:Kx; try reflexivity. apply N.eqb_neq. intro Heq.
+             specialize (Fe x Hx Kx). rewrite Heq in Fe. congruence. }
+           rewrite Ey. pose proof (epos_le (trace s0) y). unfold epos at 1. lia.
+      * eapply (Ieo _ X); [| | | | |exact E|exact O]; eassumption.
+      * exact G1.
+      * exact G1.
+Qed.
+
 End SortA.
